@@ -1853,4 +1853,115 @@ theorem GRelStar.of_erase {G1 G2 G1' G2' : NodeGrammar} (h1 : G1.eraseBoxed = G1
   | refl G => exact GRelStar.step (GRel.of_erase h1 h2 (GRel.refl G)) (GRelStar.refl _)
   | step hG _ ih => exact GRelStar.step (GRel.of_erase h1 rfl hG) (ih rfl h2)
 
+
+/-! ## (E) every rule type mentioned in a generated body is an edge of the analysed graph -/
+
+mutual
+/-- The rule structs a type expression mentions. -/
+def Node.refs : Node → List RuleId
+  | .seq _ xs => Node.refsList xs
+  | .choice xs => Node.refsList xs
+  | .opt a => a.refs
+  | .rep _ _ _ a => a.refs
+  | .atomicRepeat a => a.refs
+  | .pos a => a.refs
+  | .neg a => a.refs
+  | .push a => a.refs
+  | .ref r _ => [r]
+  | .array _ a => a.refs
+  | .pair a b => a.refs ++ b.refs
+  | _ => []
+def Node.refsList : List Node → List RuleId
+  | [] => []
+  | x :: xs => x.refs ++ Node.refsList xs
+end
+
+theorem builtinNode_refs (name : String) : ∀ k, k ∈ (builtinNode name).refs → k = 0 := by
+  intro k hk
+  unfold builtinNode at hk
+  simp only [apply_ite Node.refs, Node.refs, Node.refsList, asciiDigit, asciiAlpha, asciiAlphaLower, asciiAlphaUpper,
+    List.append_nil] at hk
+  simp at hk
+  exact hk.2.2.2
+
+/-- What `genExpr`, `genSeqSpine` and `genChoiceSpine` mention: rule 0 (`EOI`) or the rule struct of an
+identifier occurring in the expression. -/
+def RefsOk (g : PGrammar) (e : PExpr) (ks : List RuleId) : Prop :=
+  ∀ k, k ∈ ks → k = 0 ∨ ∃ name, name ∈ usedIdents e ∧ g.indexOf name = some (k - 1) ∧ 0 < k
+
+theorem RefsOk.mono {g : PGrammar} {e e' : PExpr} {ks : List RuleId} (h : RefsOk g e ks)
+    (hsub : ∀ n, n ∈ usedIdents e → n ∈ usedIdents e') : RefsOk g e' ks := by
+  intro k hk
+  rcases h k hk with h0 | ⟨name, hn, hi, hp⟩
+  · exact Or.inl h0
+  · exact Or.inr ⟨name, hsub name hn, hi, hp⟩
+
+theorem RefsOk.append {g : PGrammar} {e : PExpr} {ks ks' : List RuleId} (h : RefsOk g e ks) (h' : RefsOk g e ks') :
+    RefsOk g e (ks ++ ks') := by
+  intro k hk
+  rcases List.mem_append.mp hk with hk | hk
+  · exact h k hk
+  · exact h' k hk
+
+theorem genExpr_refs (g : PGrammar) (sk : Flag) : ∀ e : PExpr,
+    RefsOk g e (genExpr g sk e).refs ∧ RefsOk g e (Node.refsList (genSeqSpine g sk e)) ∧
+    RefsOk g e (Node.refsList (genChoiceSpine g sk e)) := by
+  intro e
+  induction e with
+  | ident name =>
+    have h1 : RefsOk g (.ident name) (genExpr g sk (.ident name)).refs := by
+      simp only [genExpr]
+      intro k hk
+      cases hi : g.indexOf name with
+      | none =>
+        rw [hi] at hk
+        exact Or.inl (builtinNode_refs name k hk)
+      | some j =>
+        rw [hi] at hk
+        simp only [Node.refs, List.mem_singleton] at hk
+        subst hk
+        exact Or.inr ⟨name, by simp only [usedIdents, List.mem_singleton], by simpa using hi, Nat.succ_pos _⟩
+    refine ⟨h1, ?_, ?_⟩
+    · simp only [genSeqSpine, Node.refsList, List.append_nil]; exact h1
+    · simp only [genChoiceSpine, Node.refsList, List.append_nil]; exact h1
+  | seq a b iha ihb =>
+    have h1 : RefsOk g (.seq a b) (genExpr g sk (.seq a b)).refs := by
+      simp only [genExpr, Node.refs, Node.refsList]
+      exact (iha.1.mono (fun n hn => by simp only [usedIdents, List.mem_append]; exact Or.inl hn)).append
+        (ihb.2.1.mono (fun n hn => by simp only [usedIdents, List.mem_append]; exact Or.inr hn))
+    refine ⟨h1, ?_, ?_⟩
+    · simp only [genSeqSpine, Node.refsList]
+      exact (iha.1.mono (fun n hn => by simp only [usedIdents, List.mem_append]; exact Or.inl hn)).append
+        (ihb.2.1.mono (fun n hn => by simp only [usedIdents, List.mem_append]; exact Or.inr hn))
+    · simp only [genChoiceSpine, Node.refsList, List.append_nil]; exact h1
+  | choice a b iha ihb =>
+    have h1 : RefsOk g (.choice a b) (genExpr g sk (.choice a b)).refs := by
+      simp only [genExpr, Node.refs, Node.refsList]
+      exact (iha.1.mono (fun n hn => by simp only [usedIdents, List.mem_append]; exact Or.inl hn)).append
+        (ihb.2.2.mono (fun n hn => by simp only [usedIdents, List.mem_append]; exact Or.inr hn))
+    refine ⟨h1, ?_, ?_⟩
+    · simp only [genSeqSpine, Node.refsList, List.append_nil]; exact h1
+    · simp only [genChoiceSpine, Node.refsList]
+      exact (iha.1.mono (fun n hn => by simp only [usedIdents, List.mem_append]; exact Or.inl hn)).append
+        (ihb.2.2.mono (fun n hn => by simp only [usedIdents, List.mem_append]; exact Or.inr hn))
+  | str s | insens s | range lo hi | peekSlice a b | skip needles =>
+    refine ⟨?_, ?_, ?_⟩ <;>
+      simp only [genExpr, genSeqSpine, genChoiceSpine, Node.refs, Node.refsList, List.append_nil] <;>
+      (intro k hk; cases hk)
+  | posPred e ih | negPred e ih | opt e ih | rep e ih | repOnce e ih | push e ih | restoreOnErr e ih =>
+    have h1 := ih.1
+    refine ⟨?_, ?_, ?_⟩ <;>
+      simp only [genExpr, genSeqSpine, genChoiceSpine, Node.refs, Node.refsList, List.append_nil] <;>
+      exact h1.mono (fun n hn => by simpa only [usedIdents] using hn)
+  | repExact e n ih | repMin e n ih | repMax e n ih =>
+    have h1 := ih.1
+    refine ⟨?_, ?_, ?_⟩ <;>
+      simp only [genExpr, genSeqSpine, genChoiceSpine, Node.refs, Node.refsList, List.append_nil] <;>
+      exact h1.mono (fun n hn => by simpa only [usedIdents] using hn)
+  | repMinMax e n m ih =>
+    have h1 := ih.1
+    refine ⟨?_, ?_, ?_⟩ <;>
+      simp only [genExpr, genSeqSpine, genChoiceSpine, Node.refs, Node.refsList, List.append_nil] <;>
+      exact h1.mono (fun n hn => by simpa only [usedIdents] using hn)
+
 end PestTyped
